@@ -358,7 +358,68 @@ CONDS = ["none", "if-range-same", "if-range-older", "if-range-newer", "if-range-
          "if-match-miss", "if-modified-since-same", "if-modified-since-older", "if-unmodified-since-same", "if-unmodified-since-older"]
 
 
+def _job_served_etag(job):
+    """The validator a client holds is the one it was *served*: for a plain file and for a pre-compressed sibling,
+    a first request reads ETag and Last-Modified, a second one echoes them in every conditional header."""
+    (size,) = job
+    import gzip as _gzip
+
+    part = Part()
+    base = tempfile.mkdtemp(prefix="c15e-")
+    env = None
+    try:
+        data = bytes(range(65, 65 + size))
+        with open(os.path.join(base, "f.bin"), "wb") as f:
+            f.write(data)
+        gz = _gzip.compress(data, mtime=0)
+        with open(os.path.join(base, "f.bin.gz"), "wb") as f:
+            f.write(gz)
+        for n in ("f.bin", "f.bin.gz"):
+            os.utime(os.path.join(base, n), (MTIME, MTIME))
+        env = Env(base)
+        for ae, served in (("", data), ("Accept-Encoding: gzip\r\n", gz)):
+            for method in ("GET", "HEAD"):
+                r0 = parse_response(env.request(f"{method} /static/f.bin HTTP/1.1\r\nHost: a\r\n{ae}\r\n".encode()))
+                part.count("executions")
+                case = {"kind": "served-etag", "size": size, "accept_encoding": bool(ae), "method": method}
+                tag = f"{method} size={size} {'gzip sibling' if ae else 'plain'}"
+                if r0 is None or r0[0] != 200 or not r0[1].get("etag"):
+                    part.violation("C15:served-etag:first-response", f"{tag}: first response {r0 and (r0[0], r0[1])}", case)
+                    continue
+                etag = r0[1]["etag"]
+                if method == "GET" and r0[2] != served:
+                    part.violation("C15:served-etag:first-body", f"{tag}: body is not the {'compressed sibling' if ae else 'file'}", case)
+                n = len(served)
+                steps = [
+                    ("if-none-match", f"If-None-Match: {etag}\r\n", 304, None),
+                    ("if-match", f"If-Match: {etag}\r\n", 200, served),
+                ]
+                if n >= 2:
+                    steps += [
+                        ("if-match+range", f"If-Match: {etag}\r\nRange: bytes=1-1\r\n", 206, served[1:2]),
+                        ("if-range+range", f"If-Range: {etag}\r\nRange: bytes=0-0\r\n", 206, served[0:1]),
+                    ]
+                for name, extra, want_status, want_body in steps:
+                    r = parse_response(env.request(f"{method} /static/f.bin HTTP/1.1\r\nHost: a\r\n{ae}{extra}\r\n".encode()))
+                    part.count("executions")
+                    part.count("transitions")
+                    part.outcome(("served-etag", name, bool(ae), method, r and r[0]))
+                    if r is None or r[0] != want_status:
+                        part.violation(f"C15:served-etag:{name}:{r and r[0]}",
+                                       f"{tag}: the ETag the server sent ({etag}) echoed in {name}: status {r and r[0]}, expected {want_status}", case)
+                    elif method == "GET" and want_body is not None and r[2] != want_body:
+                        part.violation(f"C15:served-etag:{name}:body", f"{tag}: body {r[2][:20]!r}, expected {want_body[:20]!r}", case)
+        part.state(("served-etag", size))
+    finally:
+        if env is not None:
+            env.close()
+        shutil.rmtree(base, ignore_errors=True)
+    return part
+
+
 def _dispatch(job):
+    if job[0] == "etag":
+        return _job_served_etag(job[1:])
     if job[0] == "trav":
         return _job_traversal(job[1:])
     return _job_ranges(job[1:])
@@ -385,6 +446,8 @@ def run(ctx):
     for size in (0, 1, 2, 5):
         for i in range(0, len(CONDS), 3):
             jobs.append(("rng", size, CONDS[i:i + 3]))
+    for size in (0, 1, 2, 5):
+        jobs.append(("etag", size))
     for part in ctx.pmap(_dispatch, jobs):
         ctx.merge(part)
     ctx.notes["targets"] = len(tl)
@@ -394,5 +457,8 @@ def run(ctx):
 def replay(case):
     if case["kind"] == "traversal":
         return _job_traversal((case["follow"], case["show_index"], [case["target"]])).violations
+    if case["kind"] == "served-etag":
+        part = _job_served_etag((case["size"],))
+        return [v for v in part.violations if v["case"] == case]
     part = _job_ranges((case["size"], [case["cond"]]))
     return [v for v in part.violations if v["case"].get("range") == case["range"] and v["case"].get("method") == case["method"]]
